@@ -14,6 +14,23 @@ for f in sorted(glob.glob('/verif/evidence/*.json')):
     except Exception as e:
         bad += 1
         print('INVALID', f, str(e)[:300])
+import os
+for c in m['checks']:
+    f = '/verif/' + c['evidence_file']
+    if not os.path.exists(f):
+        bad += 1
+        print('MISSING evidence for claimed', c['property_id'])
+        continue
+    e = json.load(open(f))
+    cov = e.get('coverage', {})
+    # evidence committed for the unchanged tree must be a record of a quiet run
+    if e.get('property_id') != c['property_id'] or e.get('violations', 0) != 0 or 'violation' in cov or 'inconclusive' in cov:
+        bad += 1
+        print('NOT A QUIET RUN', f, {k: e.get(k) for k in ('property_id', 'violations')}, [k for k in ('violation', 'inconclusive') if k in cov])
+unclaimed = [f for f in glob.glob('/verif/evidence/*.json') if os.path.basename(f)[:-5] not in claimed]
+if unclaimed:
+    bad += 1
+    print('evidence for unclaimed properties:', unclaimed)
 missing = [p for p in props if p not in claimed and p not in na]
 print('manifest ok; claimed', len(claimed), 'n/a', len(na), 'unaccounted', missing, 'bad evidence', bad)
 sys.exit(1 if bad else 0)
